@@ -271,55 +271,106 @@ Mine(seq) ==
      /\ Log([op |-> "mine", txs |-> seq, res |-> "ok"])
 
 (* ---- Walk ------------------------------------------------------------------------------------- *)
+(* A walk is a sequence of atomic storage writes: one batch that rolls the whole pool back, one batch
+   per undone block (newest first), one per redone block (oldest first), each moving the pointer, and
+   then one batch per re-admitted pool transaction (recoverUnconfirmedTx).  WalkSteps returns the
+   persisted state after each of these writes, so that the final state (Walk), the state after a
+   crash or a failing write between any two of them (C06, C05) are all read off the same definition. *)
 RECURSIVE PathUp(_, _)          \* blocks after `from` up to `to`, oldest first (from is an ancestor of to)
 PathUp(from, to) == IF to = from THEN <<>> ELSE Append(PathUp(from, Parent(to)), to)
 LCA(a, b) == CHOOSE c \in Anc(a) \cap Anc(b) : \A d \in Anc(a) \cap Anc(b) : Height(d) <= Height(c)
-PruneIrr(h) == IF Window = 0 THEN irr ELSE IF h - Window <= 0 THEN 0 ELSE h - Window
-RECURSIVE UndoTo(_, _, _, _, _)    \* undo newest-first until `stop`; refuses at or below irr unless pruning
-UndoTo(s, b, stop, prune, ir) ==
-  IF b = stop THEN [ok |-> TRUE, s |-> s, at |-> b, irr |-> ir]
-  ELSE IF ~prune /\ Height(b) <= ir THEN [ok |-> FALSE, s |-> s, at |-> b, irr |-> ir]
-  ELSE UndoTo(UndoBlock(s, b), Parent(b), stop, prune, IF prune /\ Window > 0 THEN PruneIrr(Height(b)) ELSE ir)
-RECURSIVE Redo(_, _, _, _, _)     \* lhf(b) = ledger height used for block b's frozen check
-Redo(s, at, seq, ir, ideal) ==
-  IF seq = <<>> THEN [ok |-> TRUE, s |-> s, at |-> at, irr |-> ir]
-  ELSE LET r == PlayBlock(s, Head(seq), {}, IF ideal THEN Height(Head(seq)) ELSE BlockLH(Head(seq))) IN
-       IF ~r.ok THEN [ok |-> FALSE, s |-> s, at |-> at, irr |-> ir]
-       ELSE Redo(r.s, Head(seq), Tail(seq), NextIrr(ir, Height(Head(seq))), ideal)
-(* recoverUnconfirmedTx: rolled-back pool members are re-admitted, producers first, when still valid *)
-RECURSIVE Readmit(_, _, _, _)
-Readmit(s, seq, acc, lh) ==
-  IF seq = <<>> THEN [s |-> s, pool |-> acc]
+PruneIrr(h, ir) == IF Window = 0 THEN ir ELSE IF h - Window <= 0 THEN 0 ELSE h - Window
+Rec(s, p, ir, pl) == [s |-> s, ptr |-> p, irr |-> ir, pool |-> pl]
+CurRec == Rec(St, ptr, irr, pool)
+LastOr(seq, dflt) == IF seq = <<>> THEN dflt ELSE seq[Len(seq)]
+RECURSIVE UndoSteps(_, _, _, _, _)    \* refuses at or below the irreversible height unless pruning
+UndoSteps(s, b, stop, prune, ir) ==
+  IF b = stop THEN [ok |-> TRUE, seq |-> <<>>]
+  ELSE IF ~prune /\ Height(b) <= ir THEN [ok |-> FALSE, seq |-> <<>>]
+  ELSE LET s2 == UndoBlock(s, b)
+           ir2 == IF prune /\ Window > 0 THEN PruneIrr(Height(b), ir) ELSE ir
+           rest == UndoSteps(s2, Parent(b), stop, prune, ir2) IN
+       [ok |-> rest.ok, seq |-> <<Rec(s2, Parent(b), ir2, {})>> \o rest.seq]
+RECURSIVE RedoSteps(_, _, _, _)       \* ideal: frozen inputs judged at the block's own height
+RedoSteps(s, seq, ir, ideal) ==
+  IF seq = <<>> THEN [ok |-> TRUE, seq |-> <<>>]
+  ELSE LET b == Head(seq)
+           r == PlayBlock(s, b, {}, IF ideal THEN Height(b) ELSE BlockLH(b)) IN
+       IF ~r.ok THEN [ok |-> FALSE, seq |-> <<>>]
+       ELSE LET ir2 == NextIrr(ir, Height(b))
+                rest == RedoSteps(r.s, Tail(seq), ir2, ideal) IN
+            [ok |-> rest.ok, seq |-> <<Rec(r.s, b, ir2, {})>> \o rest.seq]
+(* recoverUnconfirmedTx: rolled-back pool members are re-admitted in the given order when still valid *)
+RECURSIVE ReadmitSteps(_, _, _)
+ReadmitSteps(rec, seq, lh) ==
+  IF seq = <<>> THEN <<>>
   ELSE LET t == Head(seq) IN
-       IF Valid(s, t, lh) THEN Readmit(Apply(s, t), Tail(seq), acc \cup {t}, lh)
-       ELSE Readmit(s, Tail(seq), acc, lh)
+       IF Valid(rec.s, t, lh)
+       THEN LET r2 == Rec(Apply(rec.s, t), rec.ptr, rec.irr, rec.pool \cup {t}) IN <<r2>> \o ReadmitSteps(r2, Tail(seq), lh)
+       ELSE ReadmitSteps(rec, Tail(seq), lh)
+WalkSteps(rec, d, prune, order, ideal) ==
+  LET w1 == Rec(UndoSet(rec.s, rec.pool), rec.ptr, rec.irr, {})     \* the whole pool is rolled back first
+      c == LCA(rec.ptr, d)
+      u == UndoSteps(w1.s, rec.ptr, c, prune, rec.irr)
+      afterU == LastOr(u.seq, w1)
+      r == IF u.ok THEN RedoSteps(afterU.s, PathUp(c, d), afterU.irr, ideal) ELSE [ok |-> FALSE, seq |-> <<>>]
+      afterR == LastOr(r.seq, afterU)
+      ok == u.ok /\ r.ok
+      ra == IF ok THEN ReadmitSteps(afterR, order, LHeight) ELSE <<>> IN   \* a failed walk returns before re-admission
+  [ok |-> ok, steps |-> <<w1>> \o u.seq \o r.seq \o ra, lca |-> c, undoOk |-> u.ok]
+Fin(w) == w.steps[Len(w.steps)]
 (* every order of S in which producers precede consumers *)
 RECURSIVE TopoOrders(_)
 TopoOrders(S) == IF S = {} THEN {<<>>}
                  ELSE UNION {{<<c>> \o q : q \in TopoOrders(S \ {c})} : c \in {c \in S : ~\E u \in S \ {c} : DependsOn(c, u)}}
-(* P = the pool observed after the walk (trace validation) or {"*"} (generation, model checking):
-   the order in which independent rolled-back transactions are re-admitted is not fixed by the code
-   (map iteration), any dependency-respecting order is allowed *)
-Walk(d, prune, P) ==
+(* P = the pool observed after the walk (trace validation) or {"*"} (generation, model checking).  The
+   code neither fixes the order in which independent rolled-back transactions are re-admitted (map
+   iteration) nor does any property demand that the re-admitted set is maximal: any subset of the old
+   pool that can be applied in some dependency-respecting order is allowed (DESIGN R3). *)
+WalkChoice(d, prune, P, RO) ==      \* RO: the order of re-admission when it was observed (else <<>>)
+  LET canon == WalkSteps(CurRec, d, prune, TopoOrder(pool), FALSE)
+      obsd == WalkSteps(CurRec, d, prune, RO, FALSE)
+      full(o) == LET w == WalkSteps(CurRec, d, prune, o, FALSE) IN Fin(w).pool = P
+      ords == {o \in TopoOrders(P) : full(o)} IN
+  IF P = {"*"} \/ ~canon.ok \/ ~(P \subseteq pool) THEN canon
+  ELSE IF RO # <<>> /\ Range(RO) = P /\ Fin(obsd).pool = P THEN obsd
+  ELSE IF Fin(canon).pool = P THEN canon
+  ELSE IF ords = {} THEN canon ELSE WalkSteps(CurRec, d, prune, CHOOSE o \in ords : TRUE, FALSE)
+Walk(d, prune, P, RO) ==
   /\ d \in 1..n
-  /\ LET s1 == UndoSet(St, pool)                 \* the whole pool is rolled back first
-         c  == LCA(ptr, d)
-         u  == UndoTo(s1, ptr, c, prune, irr)
-         bad == [ok |-> FALSE, s |-> u.s, at |-> u.at, irr |-> u.irr]
-         r  == IF u.ok THEN Redo(u.s, u.at, PathUp(c, d), u.irr, FALSE) ELSE bad
-         ri == IF u.ok THEN Redo(u.s, u.at, PathUp(c, d), u.irr, TRUE) ELSE bad
-         canon == Readmit(r.s, TopoOrder(pool), {}, LHeight)
-         ords == {o \in TopoOrders(pool) : Readmit(r.s, o, {}, LHeight).pool = P}
-         ra == IF ~r.ok THEN [s |-> r.s, pool |-> {}]      \* a failed walk returns before re-admission
-               ELSE IF P = {"*"} \/ canon.pool = P THEN canon
-               ELSE IF ords = {} THEN canon
-               ELSE Readmit(r.s, CHOOSE o \in ords : TRUE, {}, LHeight) IN
-     /\ Set(ra.s) /\ ptr' = r.at /\ pool' = ra.pool /\ irr' = r.irr
-     /\ dev' = DevFrozen(r.ok # ri.ok \/ r.at # ri.at)
-     /\ applied' = IF u.ok THEN applied \cup {x \in Range(PathUp(c, d)) : Height(x) <= Height(r.at)} ELSE applied
-     /\ pruned' = (pruned \/ (prune /\ ptr # c))
-     /\ Log([op |-> "walk", d |-> d, prune |-> prune, res |-> IF r.ok THEN "ok" ELSE "fail"])
+  /\ \E w \in {WalkChoice(d, prune, P, RO)} : \E wi \in {WalkSteps(CurRec, d, prune, TopoOrder(pool), TRUE)} :
+     \E f \in {Fin(w)} :          \* (singleton quantifiers: each value is computed once)
+     /\ Set(f.s) /\ ptr' = f.ptr /\ pool' = f.pool /\ irr' = f.irr
+     /\ dev' = DevFrozen(w.ok # wi.ok \/ f.ptr # Fin(wi).ptr)
+     /\ applied' = IF w.undoOk THEN applied \cup {x \in Range(PathUp(w.lca, d)) : Height(x) <= Height(f.ptr)} ELSE applied
+     /\ pruned' = (pruned \/ (prune /\ ptr # w.lca))
+     /\ Log([op |-> "walk", d |-> d, prune |-> prune, res |-> IF w.ok THEN "ok" ELSE "fail"])
   /\ UNCHANGED <<blk, n, ltip>>
+(* C06: the process dies after the j-th storage write of a walk and restarts: what is persisted then *)
+WalkCrash(d, j) ==
+  /\ d \in 1..n
+  /\ LET w == WalkSteps(CurRec, d, FALSE, TopoOrder(pool), FALSE) IN
+     /\ j \in 1..Len(w.steps)
+     /\ LET f == w.steps[j] IN
+        /\ Set(f.s) /\ ptr' = f.ptr /\ pool' = f.pool /\ irr' = f.irr
+        /\ applied' = applied \cup {f.ptr}
+        /\ Log([op |-> "walkcrash", d |-> d, j |-> j, res |-> "ok"])
+  /\ UNCHANGED <<blk, n, ltip, dev, pruned>>
+
+(* ---- PlayForMiner: second half of Mine as a step of its own (the first half is a block confirmation);
+   the harness records a mined block as these two events, so that the crash point between the two
+   storage writes of Mine is an ordinary state of the specification ---------------------------------- *)
+PlayForMiner(b) ==
+  /\ b \in 2..n
+  /\ IF Parent(b) # ptr
+     THEN UNCHANGED <<ptr, utxo, zu, zd, total, irr, pool, applied>> /\ Log([op |-> "pfm", b |-> b, res |-> "fail"])
+     ELSE /\ ptr' = b /\ pool' = pool \ TxsOf(b)
+          /\ utxo' = utxo \cup {AwardU(b)} \cup UNION {FeeU(t) : t \in TxsOf(b)} /\ total' = total + Award
+          /\ UNCHANGED <<zu, zd>>
+          /\ applied' = applied \cup {b}
+          /\ irr' = NextIrr(irr, Height(b))
+          /\ Log([op |-> "pfm", b |-> b, res |-> "ok"])
+  /\ UNCHANGED <<blk, n, ltip, dev, pruned>>
 
 (* ---- Restart: close and reopen on the same data ------------------------------------------------ *)
 Restart == UNCHANGED <<blk, n, ltip, ptr, utxo, zu, zd, total, irr, pool, dev, applied, pruned>> /\ Log([op |-> "restart", res |-> "ok"])
@@ -330,9 +381,13 @@ Next ==
      \/ \E p \in 1..n, seq \in TxSeqs : MkBlock(p, seq)
      \/ \E b \in 2..n : Play(b, "*")
      \/ Mine(TopoOrder(pool))
-     \/ \E d \in 1..n : Walk(d, FALSE, {"*"})
+     \/ \E d \in 1..n : Walk(d, FALSE, {"*"}, <<>>)
      \/ Restart
 Spec == Init /\ [][Next]_vars
+(* C06: the same design with crashes between the storage writes of a walk (a mined block's two writes are
+   already two separate steps: MkBlock on the pointer, then nothing / a later Walk) *)
+CrashNext == Next \/ (Len(hist) < MaxOps /\ \E d \in 1..n, j \in 1..(2 * MaxBlocks) : WalkCrash(d, j))
+CrashSpec == Init /\ [][CrashNext]_vars
 
 -----------------------------------------------------------------------------
 (* Observable projection (compared with the real state machine after every step) *)
@@ -343,18 +398,28 @@ SumAmt(S) == IF S = {} THEN 0 ELSE LET x == CHOOSE x \in S : TRUE IN x.amt + Sum
 Balance(s, a) == SumAmt({u \in s.utxo : u.ad = a})
 PendingFees == SumAmt(UNION {FeeU(t) : t \in pool})
 ChainSeq(b) == PathUp(0, b)       \* root..b, oldest first  (PathUp(0, b) walks to parent 0)
-Obs == [ ptr  |-> ptr,
-         ltip |-> ltip,
-         irr  |-> irr,
-         total |-> ToString(total),
-         bal  |-> [i \in 1..Len(Addrs) |-> ToString(Balance(St, Addrs[i]))],
-         utxo |-> {UtxoRow(u) : u \in utxo},
-         keys |-> [k \in Keys |-> KeyObs(St, k)],
-         pool |-> pool,
+ObsOf(rec, lt) ==
+       [ ptr  |-> rec.ptr,
+         ltip |-> lt,
+         irr  |-> rec.irr,
+         total |-> ToString(rec.s.total),
+         bal  |-> [i \in 1..Len(Addrs) |-> ToString(Balance(rec.s, Addrs[i]))],
+         utxo |-> {UtxoRow(u) : u \in rec.s.utxo},
+         keys |-> [k \in Keys |-> KeyObs(rec.s, k)],
+         pool |-> rec.pool,
          \* C18: snapshots at every block of the chain (only while the state is on the ledger's main chain)
-         snap |-> IF ptr \in Anc(ltip)
-                  THEN [i \in 1..Len(ChainSeq(ptr)) |-> [k \in Keys |-> KeyObs(ForceReplay(ChainSeq(ptr)[i]), k)]]
+         snap |-> IF rec.ptr \in Anc(lt)
+                  THEN [i \in 1..Len(ChainSeq(rec.ptr)) |-> [k \in Keys |-> KeyObs(ForceReplay(ChainSeq(rec.ptr)[i]), k)]]
                   ELSE <<>> ]
+Obs == ObsOf(CurRec, ltip)
+(* C06: what the node answers after "sync to the ledger tip" (Walk(ltip)) followed by a roll-back of the pool,
+   started from the persisted state rec *)
+Force(x) == CHOOSE y \in {x} : TRUE        \* evaluate once
+SyncObs(rec) ==
+  LET w == Force(WalkSteps(rec, ltip, FALSE, TopoOrder(rec.pool), FALSE))
+      f == Force(Fin(w))
+      back == Force(Rec(UndoSet(f.s, f.pool), f.ptr, f.irr, {})) IN
+  [res |-> IF w.ok THEN "ok" ELSE "fail", obs |-> ObsOf(back, ltip)]
 
 -----------------------------------------------------------------------------
 (* C01: the state minus pool effects is what a fresh node obtains by replaying the pointer's chain *)
